@@ -109,8 +109,23 @@ def handlePBuilder (c : Case) : String :=
   let corr := if model == impl then "ok" else s!"FAIL(model=[{model}] impl=[{impl}])"
   let spec := pbSpecTag nmodel calls
   let implTag := if impl.startsWith "ok" then "ok" else impl
+  -- mmode ≠ 0: the model does not evaluate at its own initial parameters (eval fails / set_params
+  -- fails / a basis value is NaN).  C18: acceptance is decided by the shapes alone; the built problem
+  -- reports the model's initial parameters and exposes no residuals and no coefficients.
+  let mmode := attrNat c.header "mmode" 0
   let post := match c.firstWith "post" with
-    | some l => pbPostMonitor width nmodel calls (attrStr l "cz")
+    | some l =>
+      let cz := attrStr l "cz"
+      let pr := attrStr l "pr"
+      let pm := attrStr l "pm"
+      if pm == "0" then some "params-are-not-the-model's-initial-parameters"
+      else if mmode != 0 then
+        (if cz != "none" then some s!"coefficients-exposed-although-the-model-fails-at-its-initial-parameters:mmode={mmode}"
+         else if pr == "1" then some s!"residuals-exposed-although-the-model-fails-at-its-initial-parameters:mmode={mmode}"
+         else none)
+      else if pr == "0" && cz != "none" then some "coefficients-without-residuals"
+      else if pr == "1" && cz == "none" then some "residuals-without-coefficients"
+      else pbPostMonitor width nmodel calls cz
     | none => none
   let mon := if spec != implTag then s!"FAIL(spec=[{spec}] impl=[{implTag}])"
     else match post with
